@@ -107,6 +107,15 @@ def _cases_core(rng, tier):
             i = rng.choice([0, 1, 7])
             for m in sib:
                 yield "bip85 %s %s %d %d -" % (m, app, param, i), "sibling-masters"
+    # the same master key handed over in every extended-private-key form (xprv, yprv, zprv, tprv, uprv, vprv): BIP85
+    # output is a function of key and chain code, never of the text form the master arrived in
+    for _ in range(1 if tier == "quick" else 10):
+        k = rng.randrange(1, N)
+        chain = bytes(rng.getrandbits(8) for _ in range(32))
+        for ver in (0x0488ADE4, 0x049D7878, 0x04B2430C, 0x04358394, 0x044A4E28, 0x045F18BC):
+            xk = common.xkey_string(ver, 0, bytes(4), 0, chain, b"\x00" + k.to_bytes(32, "big"))
+            for app, param in (("xprv", 0), ("wif", 0), ("mnemonic", 12), ("hex", 32), ("pwd", 21)):
+                yield "w_bip85 xkey:%s %s %d %d" % (sx(xk), app, param, rng.choice([0, 1, 7])), "master-form-%08x" % ver
     yield "w_bip85 xkey:%s mnemonic 12 0" % sx(REF_XPRV), "reference-vector"
     yield "w_bip85 xkey:%s wif 0 0" % sx(REF_XPRV), "reference-vector"
     yield "w_bip85 xkey:%s xprv 0 0" % sx(REF_XPRV), "reference-vector"
@@ -129,8 +138,19 @@ def oracle(line, out):
     if tok[0] == "w_bip85":
         app, param = tok[2], int(tok[3])
         want = REF.get((app, param))
-        if want is not None and (v is None or unstr(v) != want):
-            return "BIP85 reference vector (%s) not reproduced" % app
+        if unstr(tok[1].split(":")[1]) == REF_XPRV and int(tok[4]) == 0:
+            if want is not None and (v is None or unstr(v) != want):
+                return "BIP85 reference vector (%s) not reproduced" % app
+            return None
+        pl = b58check_dec(unstr(tok[1].split(":")[1]))
+        if len(pl) != 78 or pl[45] != 0:
+            return None
+        want2 = indep(app, int.from_bytes(pl[46:78], "big"), pl[13:45], param, int(tok[4]))
+        if want2 is None:
+            return None if v is None else "BIP85 %s accepted an out-of-range request" % app
+        if v is None or unstr(v) != want2:
+            return ("BIP85 %s of a master imported from an extended key with version %s differs from the specified "
+                    "derivation: %s" % (app, pl[:4].hex(), (unstr(v) if v else "refused")[:50]))
         return None
     if tok[0] != "bip85":
         return None
